@@ -175,6 +175,12 @@ func (rl *ReplicaLeader) sendData(wait usync.WaitCloser, req *pb.SyncRequest, st
 		err = errors.Join(fmt.Errorf("channel.NewReader error : offset(%s:%d), error(%w)", reqSp.RunId, reqSp.Offset, err))
 		return rl.handleError(stream, err, pb.SyncResponse_CLEAR, "internal error", "")
 	}
+	if reader.RunId() != reqSp.RunId {
+		// the input switched the cache to another replication id after the follower's id was checked
+		err = fmt.Errorf("run id is stale : channel_run_id(%s), replica_run_id(%s)", reader.RunId(), reqSp.RunId)
+		reader.Close()
+		return rl.handleError(stream, err, pb.SyncResponse_ERROR, "internal error", "")
+	}
 
 	wait2 := usync.NewWaitCloserFromParent(wait, nil)
 	defer wait2.Close(nil)
